@@ -62,6 +62,12 @@ func (k Keeper) Open(ctx sdk.Context, msg *types.MsgOpen) (*types.MsgOpenRespons
 
 	// check if existing mtp to consolidate
 	existingMtp := k.CheckSameAssetPosition(ctx, msg)
+	if existingMtp != nil && existingMtp.AmmPoolId != msg.PoolId {
+		// the match ignores the pool. This open is booked on msg.PoolId (collateral, custody and
+		// liabilities go to that pool): merging it into a position held in another pool would leave
+		// both pools' aggregates out of line with their positions.
+		return nil, fmt.Errorf("a position for the same assets is open in pool %d, cannot open or add to it through pool %d", existingMtp.AmmPoolId, msg.PoolId)
+	}
 
 	if existingMtp == nil {
 		// opening new position
